@@ -9,12 +9,12 @@ P="$DIR/patch.diff"; [ -f "$DIR/patch.rebased.diff" ] && P="$DIR/patch.rebased.d
 S=${SEEDRUN_DIR:-/tmp/seedrun}
 mkdir -p $S
 if [ ! -d $S/repo ]; then git -C /repo worktree add -q --detach $S/repo HEAD || exit 2; fi
-git -C $S/repo checkout -q --detach "$(git -C /repo rev-parse HEAD)" || exit 2
+git -C $S/repo reset -q --hard; git -C $S/repo checkout -q --detach "$(git -C /repo rev-parse HEAD)" || exit 2
 rsync -a --delete --exclude harness/target --exclude harness/fuzz/target --exclude replays --exclude evidence --exclude .git /verif/ $S/verif/
 sed -i "s#path = \"/repo\"#path = \"$S/repo\"#" $S/verif/harness/Cargo.toml
 export VERIF_REPO=$S/repo
 cd $S/repo || exit 2
-if git apply --check "$P" 2>/dev/null; then git apply "$P"; else git apply -3 "$P" >/dev/null 2>&1 || { echo "PATCH DOES NOT APPLY: $DIR"; git checkout -- .; exit 2; }; git reset -q; fi
+if git apply --check "$P" 2>/dev/null; then git apply "$P"; else git apply -3 "$P" >/dev/null 2>&1 || { echo "PATCH DOES NOT APPLY: $DIR"; git reset -q --hard; exit 2; }; git reset -q; fi
 RES="MISSED"
 for SD in $SEEDS; do
   OUT=$(cd $S/verif && VERIF_SEED=$SD ./check "$ID" "$TIER" 2>&1); RC=$?
